@@ -79,6 +79,7 @@ class ProbeEngine(object):
         self.responded = set()
         self.fatal_too = set()
         self.last_tx_seq = None
+        self.cur_target = None
 
     # -- bookkeeping: which chips' info replies reached the socket ----------
     def on_command(self, chip, r, ip):
@@ -86,13 +87,20 @@ class ProbeEngine(object):
             self.seq_info[r.seq] = (chip.x, chip.y)
 
     def on_tx(self, sock, payload):
-        self.last_tx_seq = wire.parse_scp(payload).seq
+        r = wire.parse_scp(payload)
+        self.last_tx_seq = r.seq
+        self.cur_target = (r.dest_x, r.dest_y) if r.cmd == 31 else None
 
     def on_rx(self, sock, data, out):
         # a reply counts only while rig is still waiting for it: commands go
         # out one at a time, so that is "its sequence number is that of the
         # datagram transmitted last"
         r = wire.parse_scp(out)
+        if r.cmd not in (0x80, 0x82, 0x8d) and self.cur_target is not None:
+            # a fatal code ends the exchange in progress whatever command it
+            # answers (e.g. the late reply to a request of the previous chip):
+            # the chip being probed may legitimately be left out
+            self.fatal_too.add(self.cur_target)
         if r.seq != self.last_tx_seq or r.seq not in self.seq_info:
             return
         if r.cmd == 0x80 and len(out) >= 26 + 24:
